@@ -3,12 +3,13 @@
    known findings of known_findings.json).  PROVED, for all inputs of the class: the round trip when a and b have
    the same scheme and authority, absolute dot-free paths without an empty segment before the last one and a
    literal common directory prefix (C15_round_trip_partial), and when they differ in scheme or in authority
-   (C15_other_scheme, C15_other_authority).  Outside these hypotheses (percent-encoded variants of the common
-   prefix, the two "./"-shield shapes, authority on one side only) the property is carried by the correspondence run
-   and the implementation's own == on every generated pair. *)
+   (C15_other_scheme, C15_other_authority); with percent-respelled common prefixes (C15_round_trip_respelled_partial)
+   and in the two "./"-shield shapes (C15_round_trip_shield_partial) the round trip up to ==.  Outside these
+   hypotheses (dot segments or inner empty segments in the inputs, authority on one side only, relative inputs) the
+   property is carried by the correspondence run and the implementation's own == on every generated pair. *)
 From Coq Require Import List NArith Bool Arith.
 Import ListNotations.
-Require Import V.Regex V.Parse V.ParseProofs V.PathSpec V.Splice V.Setters V.Push V.Reference V.Cmp V.ResolveProofs4 V.C16Proofs V.RelProofs V.RelProofs2.
+Require Import V.Regex V.Parse V.ParseProofs V.PathSpec V.Splice V.Setters V.Push V.Reference V.Cmp V.ResolveProofs4 V.C16Proofs V.RelProofs V.RelProofs2 V.RelProofs3.
 Local Open Scope nat_scope.
 
 Definition round_trip (a b : str) : option bool :=
@@ -62,6 +63,30 @@ Theorem C15_round_trip_respelled_partial : forall (pa pb : parts) (s : str) (ca 
                   resolve (compose pr) (compose pb) = Some back /\ eq_ref back (compose pa) = Some true.
 Proof. exact round_trip_respelled_partial. Qed.
 Print Assumptions C15_round_trip_respelled_partial.
+
+(* THE SHIELD SHAPES: b's directory is a (respelled) prefix of a's path and the first remaining segment of a is empty
+   or has a ':' -- relative_to then writes "./" in front (sh_ref: path "./" ++ remaining segments, a's query and
+   fragment), and resolving that against b gives a with b's spelling of the prefix, == a. *)
+Theorem C15_round_trip_shield_partial : forall (pa pb : parts) (s : str) (ca cb ss : list str),
+  wf_parts pa -> wf_parts pb -> p_scheme pa = Some s -> p_scheme pb = Some s ->
+  p_authority pa = p_authority pb -> (forall x, p_authority pa = Some x -> eq_authority x x = Some true) ->
+  is_abs (p_path pa) = true -> is_abs (p_path pb) = true ->
+  segs (p_path pa) = ca ++ ss -> removelast (segs (p_path pb)) = cb ->
+  plain (segs (p_path pa)) -> plain (segs (p_path pb)) -> no_empty_but_last (p_path pa) -> no_empty_but_last (p_path pb) ->
+  Forall2 seg_eq cb ca -> strip_common (ca ++ ss) cb = Some (ss, []) ->
+  match ss with x :: _ => x = [] \/ colon_first x = true | [] => False end ->
+  Forall (fun x => dec x <> None) ss -> (forall x, p_query pa = Some x -> dec x <> None) -> (forall x, p_fragment pa = Some x -> dec x <> None) ->
+  exists pr back, wf_parts pr /\ relative_to (compose pa) (compose pb) = Some (compose pr) /\
+                  resolve (compose pr) (compose pb) = Some back /\ eq_ref back (compose pa) = Some true.
+Proof. exact round_trip_shield_partial. Qed.
+Print Assumptions C15_round_trip_shield_partial.
+(* satisfiable: h://h/a/x:y/c relative to h://h/a/z is ./x:y/c *)
+Theorem C15_round_trip_shield_instance :
+  relative_to (compose sh_ex_a) (compose sh_ex_b) = Some [46;47;120;58;121;47;99]%N /\
+  exists pr back, wf_parts pr /\ relative_to (compose sh_ex_a) (compose sh_ex_b) = Some (compose pr) /\
+                  resolve (compose pr) (compose sh_ex_b) = Some back /\ eq_ref back (compose sh_ex_a) = Some true.
+Proof. exact round_trip_shield_instance. Qed.
+Print Assumptions C15_round_trip_shield_instance.
 
 (* the strip_common hypothesis holds whenever the common prefix is literal and decodable and the next segments
    differ after percent-decoding *)
